@@ -1,1 +1,48 @@
+import Dbg.Props.C08
+import Dbg.Props.C02
+import Dbg.Props.C09
 import Dbg.Model.Pipeline
+/-! # C04 — Sharded assembly equals unsharded assembly
+
+The full statement (`C04_sharded_eq_direct_full`) is the deepest chain of the project: both pipelines equal the
+connected components of the good-link relation of the pruned reference table.  Its links, and their status:
+
+ (i)   every k-mer occurrence of every read lies in exactly one piece, with its true flanks — PROVED (`C04_link_pieces`,
+       = C08_pieces_cover / C08_pieces_exact);
+ (ii)  same k-mer ⇒ same shard (bucket purity) — stated (`Msp.C08_bucket_pure_full`), not yet proved;
+ (iii) each shard's nodes are the components of the good links inside the shard — PROVED at id level (`C04_link_shard`, = C02_components);
+ (iv)  re-compression of the combined graph merges exactly along surviving node-level links and never duplicates or
+       drops a node — partly PROVED (`C04_link_recompress`, = C09_censored_excluded), characterisation missing;
+ (v)   components of components are components — not yet proved.
+
+Until (ii), (iv), (v) are closed the property is decided by evaluating the equality of canonical partitions, payload
+totals and adjacencies on the two real pipelines, and by diffing both with the composed model. -/
+namespace Pipeline
+open Compress (Seq Exts Node)
+
+/-- canonical partition of a graph: the set of canonical k-mer sets of its nodes -/
+def partitionOf (g : Graph.G Filter.Payload) : List (List Seq) :=
+  g.nodes.map fun n => Compress.sortSeqs ((Compress.windowsOf g.K n.seq).map fun w => (Compress.canonOf g.stranded w).1)
+
+def SamePartition (a b : Graph.G Filter.Payload) : Prop :=
+  (∀ p ∈ partitionOf a, p ∈ partitionOf b) ∧ (∀ p ∈ partitionOf b, p ∈ partitionOf a)
+
+/-- Full statement of C04 (to be proved). -/
+def C04_sharded_eq_direct_full : Prop :=
+  ∀ (K P : Nat) (reads : List Seq) (perm : Option (Array Nat)) (stranded : Bool) (thr : Nat) (prune : Bool)
+    (sigmas : List (List Nat)) (dsigma : List Nat) (gs gd : Graph.G Filter.Payload),
+    1 ≤ P → P < K →
+    sharded K P reads perm stranded thr prune sigmas = some gs →
+    direct K (reads.map fun r => (r, (⟨0⟩ : Exts), 0)) stranded thr dsigma = some gd →
+    SamePartition gs gd
+
+/-- link (i): the pieces of a read tile it exactly -/
+def C04_link_pieces := @Msp.C08_pieces_cover
+
+/-- link (iii): per-shard compression yields the components of the shard's good links -/
+def C04_link_shard {D : Type} := @Compress.C02_components D
+
+/-- link (iv), first half: re-compression merges every input node at most once and only non-censored ones -/
+def C04_link_recompress {D : Type} := @CompressGraph.C09_censored_excluded D
+
+end Pipeline
